@@ -1,11 +1,18 @@
 """Per-property configuration of the validator checks (case kind `check`, harness/kind_check.py).
 quick / thorough: size parameter of the slice (C10/C19: repetitions per fault class;
-C11/C16/C09: number of generated well-formed programs); *_fuzz: number of fuzz inputs."""
+C11/C16/C09: number of generated well-formed programs); *_fuzz: number of fuzz inputs.
+runtime: the model files the correspondence evaluates inside coqc; targets: the property's
+theorem file (common.build builds exactly these, see props.build_targets)."""
+
+_RT = ["Check/CheckRun.vo", "Check/Guards.vo"]
 
 PROPS = {
-    "C09": dict(kind="check", quick=120, thorough=2400, proj="P_C01", mon="mon_C01"),  # proj/mon: run-kind corpus witnesses
-    "C10": dict(kind="check", quick=3, thorough=60),
-    "C11": dict(kind="check", quick=160, thorough=3200),
-    "C16": dict(kind="check", quick=120, thorough=2400, quick_fuzz=1500, thorough_fuzz=30000),
-    "C19": dict(kind="check", quick=3, thorough=60),
+    # proj/mon and the run-time models: the run-kind corpus witnesses D1, D19 list C09
+    "C09": dict(kind="check", quick=120, thorough=2400, proj="P_C01", mon="mon_C01",
+                runtime=_RT + ["NetRun.vo", "Monitors.vo"], targets=["Properties/C09.vo"]),
+    "C10": dict(kind="check", quick=3, thorough=60, runtime=_RT, targets=["Properties/C10.vo"]),
+    "C11": dict(kind="check", quick=160, thorough=3200, runtime=_RT, targets=["Properties/C11.vo"]),
+    "C16": dict(kind="check", quick=120, thorough=2400, quick_fuzz=1500, thorough_fuzz=30000,
+                runtime=_RT, targets=["Properties/C16.vo"]),
+    "C19": dict(kind="check", quick=3, thorough=60, runtime=_RT, targets=["Properties/C19.vo"]),
 }
